@@ -28,7 +28,8 @@ pub fn tokenize(input: &str) -> LexResult {
     while let Some(c) = it.next() {
         tokens.append(&mut into_tokens(c, &mut it, &mut state)?);
     }
-    tokens.append(&mut state.flush_indents());
+    let last_end = tokens.last().map(|lex: &Lex| lex.pos.end);
+    tokens.append(&mut close_blocks(&mut state, last_end));
     tokens.push(Lex::new(
         if let Some(lex) = tokens.last() {
             lex.pos.end.offset_pos(1)
@@ -40,6 +41,17 @@ pub fn tokenize(input: &str) -> LexResult {
 
     let tokens = pass(&tokens);
     Ok(tokens)
+}
+
+/// Blocks still open at the end of the input are closed where the last token ends, not after
+/// trailing blank lines: an unexpected end of input is then reported on the line where the
+/// input stops.
+pub(crate) fn close_blocks(state: &mut State, last_end: Option<CaretPos>) -> Vec<Lex> {
+    let dedents = state.flush_indents();
+    dedents
+        .iter()
+        .map(|lex| Lex::new(last_end.unwrap_or(lex.pos.start), lex.token.clone()))
+        .collect()
 }
 
 fn tokenize_direct(input: &str) -> LexResult {
